@@ -379,6 +379,26 @@ def multiex_rule(repo, chk):
         ok_src = any(".replace(',','-')" in d and 'if' not in d for d in srcdefs) and any('tolist()' in d for d in srcdefs)
         ok_sets = ok_sets and ok_src
     chk.expect(ok_sets, 'C11.3a', 'R15', fn.site(sets[0]) if sets else fn.site(), ast.unparse(sets[0]).replace('\n', ' ')[:140] if sets else 'multivalue_sets = [set(x.split("-")) ...]', 'each row value is split into its set of tokens', "each row's delimited value must be split into the set of its tokens (',' and '-' delimited)", soft=True)
+    # the per-row token sets are what the indicators are read from: none of them may be changed - a name bound to ONE row's set (sets[0], the loop
+    # variable over the sets) that is then extended (update / add / |=) puts other rows' tokens into that row
+    if sname:
+        row_alias = {}
+        for n in own_nodes(fn.node):
+            if isinstance(n, ast.Assign) and len(n.targets) == 1 and isinstance(n.targets[0], ast.Name) and isinstance(n.value, ast.Subscript) and isinstance(n.value.value, ast.Name) and n.value.value.id == sname \
+                    and not isinstance(n.value.slice, ast.Slice):
+                row_alias[n.targets[0].id] = n
+        for n in own_nodes(fn.node):
+            hit = None
+            if isinstance(n, ast.Call) and isinstance(n.func, ast.Attribute) and n.func.attr in ('update', 'add', 'discard', 'remove', 'clear', 'intersection_update', 'difference_update', 'pop') \
+                    and isinstance(n.func.value, ast.Name) and n.func.value.id in row_alias:
+                hit = (n, n.func.value.id)
+            elif isinstance(n, ast.AugAssign) and isinstance(n.target, ast.Name) and n.target.id in row_alias and not getattr(n, 'from_plain', False):
+                hit = (n, n.target.id)
+            if hit:
+                b = row_alias[hit[1]]
+                chk.bad('C11.3e', 'R11', fn.site(hit[0]), f'{ast.unparse(b)[:60]} ... {ast.unparse(hit[0])[:60]}', f'`{hit[1]}` is the token set of ONE row (an element of `{sname}`, bound without a copy) and is changed in place: '
+                        'that row then contains the tokens of other rows, so its indicators are 1 for tokens it does not have')
+                break
     # membership test per row
     ifs = [n for n in own_nodes(fn.node) if isinstance(n, ast.If) and any(isinstance(c, ast.Call) and isinstance(c.func, ast.Attribute) and c.func.attr == 'append' for s in n.body for c in ast.walk(s))]
     ok_mem = False
@@ -403,7 +423,36 @@ def multiex_rule(repo, chk):
             tok = t.left.id
             names = [n for n in own_nodes(fn.node) if isinstance(n, ast.Assign) and isinstance(n.targets[0], ast.Subscript) and isinstance(n.targets[0].slice, ast.JoinedStr)]
             ok_mem = bool(names) and tok in ast.unparse(names[0].targets[0].slice)
-    if not ifs:
+    # the same written as a conditional expression:  vec.append('1' if token in row_set else '')   /   ['1' if token in s else '' for s in sets]
+    if not ifs and sname:
+        par_c = parents(fn.node)
+        for n_ in own_nodes(fn.node):
+            if not (isinstance(n_, ast.IfExp) and isinstance(n_.body, ast.Constant) and n_.body.value == '1' and isinstance(n_.orelse, ast.Constant) and n_.orelse.value == ''):
+                continue
+            t_ = n_.test
+            if not (isinstance(t_, ast.Compare) and len(t_.ops) == 1 and isinstance(t_.ops[0], ast.In) and isinstance(t_.left, ast.Name) and isinstance(t_.comparators[0], ast.Name)):
+                continue
+            rowv = t_.comparators[0].id
+            # the row variable ranges over the list of token sets
+            lp_ = par_c.get(n_)
+            ranges = False
+            while lp_ is not None and lp_ is not fn.node:
+                if isinstance(lp_, ast.For):
+                    if (isinstance(lp_.target, ast.Name) and lp_.target.id == rowv and ast.unparse(lp_.iter) == sname) or \
+                            (isinstance(lp_.target, ast.Tuple) and len(lp_.target.elts) == 2 and getattr(lp_.target.elts[1], 'id', None) == rowv and ast.unparse(lp_.iter) == f'enumerate({sname})'):
+                        ranges = True
+                if isinstance(lp_, ast.ListComp) and any(isinstance(g.target, ast.Name) and g.target.id == rowv and ast.unparse(g.iter) == sname and not g.ifs for g in lp_.generators):
+                    ranges = True
+                lp_ = par_c.get(lp_)
+            names_ = [x for x in own_nodes(fn.node) if isinstance(x, ast.Assign) and isinstance(x.targets[0], ast.Subscript) and isinstance(x.targets[0].slice, ast.JoinedStr)]
+            if ranges and names_ and t_.left.id in ast.unparse(names_[0].targets[0].slice):
+                chk.ok('C11.3b', 'R15', fn.site(n_), ast.unparse(n_), "'1' exactly on rows whose token set contains the token, '' otherwise (conditional expression)")
+                ifs = [n_]
+                ok_mem = True
+                break
+    if ifs and isinstance(ifs[0], ast.IfExp):
+        pass
+    elif not ifs:
         chk.bad('C11.3b', 'R15', fn.site(), "'1' if token in token_set(row) else ''", "the indicator is not computed by token-set membership per row (e.g. substring matching such as str.contains marks rows whose tokens merely contain the token)", soft=True)
     else:
         chk.expect(ok_mem, 'C11.3b', 'R15', fn.site(ifs[0]), ast.unparse(ifs[0].test), "'1' exactly on rows whose token set contains the token, '' otherwise", "the indicator must be '1' iff the token is a member of the row's token set (not a substring test), '' otherwise", soft=True)
